@@ -425,28 +425,13 @@ def r4_cascade(ctx, svc: Svc) -> None:
     raise AnalysisError(f'only {len(tables)} sqla.Table declarations found')
   per_study = {a: t for a, (t, cols) in tables.items() if 'study_id' in cols}
   impl = svc.sql.methods.get('delete_study')
-  g = cfgmod.CFG(impl.node)
-  rd = flow.ReachingDefs(g)
-  # delete queries: var -> table attr ; where-clauses collected along reassignment chain
+  from vzstatic.sqlmodel import SqlModel
   deleted: Dict[str, List[ast.AST]] = {}
-  qtable: Dict[str, str] = {}
-  for n in g.nodes:
-    if n.kind == 'stmt' and isinstance(n.ast, ast.Assign) and len(n.ast.targets) == 1 and isinstance(n.ast.targets[0], ast.Name):
-      v = n.ast.targets[0].id
-      val = n.ast.value
-      if isinstance(val, ast.Call) and isinstance(val.func, ast.Attribute):
-        if val.func.attr == 'delete' and (dotted(val.func.value) or '').startswith('self.'):
-          qtable[v] = dotted(val.func.value)[5:]
-          deleted.setdefault(qtable[v], [])
-        elif val.func.attr == 'where' and isinstance(val.func.value, ast.Name) and val.func.value.id in qtable:
-          qtable[v] = qtable[val.func.value.id]
-          deleted[qtable[v]].extend(val.args)
   executed = set()
-  for c in flow.calls_in(impl.node):
-    d = dotted(c.func) or ''
-    if (d.endswith('_write_or_rollback') or d.endswith('.execute')) and c.args and isinstance(c.args[0], ast.Name) \
-        and c.args[0].id in qtable:
-      executed.add(qtable[c.args[0].id])
+  for call, q in SqlModel(impl.node).executed():
+    if q.kind == 'delete' and q.table:
+      executed.add(q.table)
+      deleted.setdefault(q.table, []).extend(q.wheres)
   for attr, tname in sorted(per_study.items()):
     ctx.check(attr in executed, 'R4', f'SQL.delete_study: table {tname}', impl.node,
               'rows of the study are deleted in the same transaction',
@@ -466,8 +451,10 @@ def r4_cascade(ctx, svc: Svc) -> None:
     cols = set()
     for cl in clauses:
       for x in ast.walk(cl):
-        if isinstance(x, ast.Attribute) and isinstance(x.value, ast.Attribute) and x.value.attr == 'c':
-          cols.add(x.attr)
+        if isinstance(x, ast.Attribute):
+          base = flow.resolve_local(impl.node, x.value)
+          if isinstance(base, ast.Attribute) and base.attr == 'c':
+            cols.add(x.attr)
     tname, tcols = tables.get(attr, ('?', set()))
     pk_ok = ('study_name' in cols) or ({'owner_id', 'study_id'} <= cols)
     ctx.check(pk_ok, 'R4', f'SQL.delete_study: key of {tname}', impl.node,
@@ -541,10 +528,15 @@ def r8_exact_filters(ctx, svc: Svc) -> None:
   for m in svc.sql.methods.values():
     for c in flow.calls_in(m.node):
       if isinstance(c.func, ast.Attribute) and c.func.attr in ('where', 'filter', 'filter_by', 'having'):
-        for a in c.args:
+        for a0 in c.args:
+          a = flow.resolve_local(m.node, a0)
+          def _is_col(x):
+            if not isinstance(x, ast.Attribute):
+              return False
+            base = flow.resolve_local(m.node, x.value)
+            return isinstance(base, ast.Attribute) and base.attr == 'c'
           ok = isinstance(a, ast.Compare) and len(a.ops) == 1 and isinstance(a.ops[0], ast.Eq) and any(
-              isinstance(x, ast.Attribute) and isinstance(x.value, ast.Attribute) and x.value.attr == 'c'
-              for x in ast.walk(a.left))
+              _is_col(x) for x in ast.walk(a.left))
           ctx.check(ok, 'R8', f'SQL.{m.name}: filter', a,
                     'exact equality on a key column',
                     f'filter `{unparse(a, limit=100)}` is not an exact key equality: pattern / prefix / '
